@@ -19,13 +19,14 @@ import (
 // expiry and sits in the quota call until 50 ms after it; the quota refuses.
 // The watcher woke at the expiry, could not signal the request, and has to come
 // back for it: the verdict is due within the slack (100 ms) of the instant the
-// loop let go.  Real time is not deterministic: 400 ms of jitter are granted on
-// top, and a late run is repeated once; only two late runs are reported.
+// loop let go.  Real time is not deterministic: 600 ms of jitter are granted on
+// top, and a late run is repeated up to three times; only four late runs in a row
+// are reported (the skipped-entry defect is ~950 ms late every time).
 // Monitor only (no model, no replayable input: the hit carries the timings).
 func realtimeWatcher(o *c.Out) {
-	const jitter = 400 * time.Millisecond
+	const jitter = 600 * time.Millisecond
 	var runs []map[string]any
-	for attempt := 0; attempt < 2; attempt++ {
+	for attempt := 0; attempt < 4; attempt++ {
 		after, verdict, ok := realtimeOnce()
 		runs = append(runs, map[string]any{"verdict_after_release_ms": after.Milliseconds(), "verdict": verdict, "completed": ok})
 		if ok && verdict == "blocked" && after <= time.Duration(slackNs)+jitter {
@@ -37,7 +38,7 @@ func realtimeWatcher(o *c.Out) {
 	o.MonitorChecked(1)
 	o.Hit(c.Hit{Suite: "sched", Index: -1, Signature: "ttl-late:watcher-goroutine",
 		Demanded: "a verdict no later than the time-to-live plus scheduling slack (one 100 ms loop period), with the watcher's own goroutine running in real time",
-		Observed: fmt.Sprintf("TTL 1 s; the loop held the request from 0.9 s to 1.05 s after its arrival and the quota refused; verdict after the release (two runs): %v (allowed: %v + %v jitter)",
+		Observed: fmt.Sprintf("TTL 1 s; the loop held the request from 0.9 s to 1.05 s after its arrival and the quota refused; verdict after the release (four runs): %v (allowed: %v + %v jitter)",
 			runs, time.Duration(slackNs), jitter),
 		Case: Case{Name: "realtime: arrive; +900ms tick; +150ms answer false; wait", Realtime: true,
 			Cfg: Cfg{Max: 1, SMax: -1, TTLSec: 1}, Runs: runs}})
